@@ -35,6 +35,9 @@ func genGeneric(c *Ctx) {
 	representativeTable(c)
 	// a parameter whose type is a type parameter must not be named after it (it would shadow the type parameter)
 	namesTables(c, nil, false, true)
+	// the type arguments of the self-check line are type texts: rendered when the file is, not while the
+	// data is built (G-VARNAME/readers)
+	gen.CheckVarNameOwners(c.Run, c.Prog)
 }
 
 func genFormat(c *Ctx) {}
